@@ -105,7 +105,7 @@ class C16Check:
             return c16.gen_server_case(rng)
         classes = ["TaskPool", "SimpleTaskPool", "ExtTaskPool", "ExtSimpleTaskPool"]
         width = 80 if i % 8 < 2 else rng.choice([rng.randint(10, 40), rng.randint(20, 120), rng.randint(60, 400)])
-        return {"cls": classes[i % 4], "width": width, "name": rng.choice([None, "p", "my-pool", "ünï"])}
+        return {"cls": classes[i % 4], "width": width, "name": rng.choice([None, "p", "my-pool", "ünï"]), "long_first": rng.choice([0, 0, 5000, 9000])}
 
     def run_case(self, case, verbose=False):
         from . import c16
@@ -152,7 +152,7 @@ class C18Check:
 
     def floors(self, tier):
         return scaled_floors("C18", ["C18.lines.invalid", "C18.lines.junk", "C18.lines.mutant", "C18.lines.help", "C18.lines.valid",
-                                     "C18.probe_ok", "C18.isolation_ok", "C18.short_after_long", "C18.waiting_released", "C18.socket_probe_ok", "C18.socket_client_left"], tier, 50)
+                                     "C18.probe_ok", "C18.isolation_ok", "C18.short_after_long", "C18.waiting_released", "C18.socket_probe_ok", "C18.socket_client_left", "C18.socket_reply_after_stop"], tier, 50)
 
     def timeout(self, tier):
         return 900 if tier == "quick" else 7200
